@@ -64,8 +64,25 @@ func Eval(r *formula.Runner, ctx context.Context, e formula.Expression) (out Eva
 	return
 }
 
+// Perturb, when set, is called before every PerturbEvery-th EvalText call. The
+// checks use it to interleave evaluations of unrelated formulas (other
+// builtins, other operators) with their own cases: on a correct library this
+// changes nothing, but state that some other feature leaves behind in the
+// process then shows up in the check's own oracle.
+var (
+	Perturb      func()
+	PerturbEvery = 37
+	perturbCount int
+)
+
 // EvalText parses and evaluates text against data (nil = no map).
 func EvalText(text string, data map[string]interface{}) EvalOut {
+	if Perturb != nil {
+		perturbCount++
+		if perturbCount%PerturbEvery == 0 {
+			Perturb()
+		}
+	}
 	p := Parse([]byte(text))
 	if !p.OK() {
 		if p.Panic != nil {
